@@ -284,3 +284,8 @@ extend("C10", "A-LEGACY ($defs as written), same-node type clause", "a recursive
 extend("C13", "A-LEGACY overrides clause", "with both spellings present the legacy keyword never changes what the current one stated (not rescuable by a fold elsewhere).")
 extend("C18", "", "hostile kinds: unknown type next to a primitive enum, a null one composition further down (fixed 65994c0: SIGSEGV in determineTypeName).")
 extend("C19", "A-TOTAL direct-call classes", "pkg/types decoders also return for the empty input and the lone quote (fixed: slice [1:0] panic).")
+extend("C10", "", "reference chains (a definition that is only a $ref): five known findings.")
+extend("C09", "", "defaults inside allOf / anyOf branches; a defaulted property's named field type lets the token null through (known finding: defaulted enums refuse null).")
+extend("C18", "B-EOF", "every successful return after json.Decoder.Decode is dominated by an end-of-input test on the decoder (fixed bcc2aff: trailing data accepted).")
+for _pid in ("C02", "C03", "C04", "C05", "C06", "C07", "C08", "C09", "C10", "C11", "C14", "C15", "C17", "C18", "C19"):
+    extend(_pid, "", "one family member in four (all in the thorough tier) is also run without --extra-imports, the CLI's default mode.")
